@@ -9,7 +9,7 @@ ecs line protocol against `hawkdrv oom`, collect-then-retry prediction for conta
 A hit of (1) is a concrete failing input (program + k + mode); a difference only in (2), a translator
 refusal or a failing proof is reported with found_input=False.
 """
-import importlib.util, os, re, shutil, time, concurrent.futures
+import importlib.util, os, re, shutil, threading, time, concurrent.futures
 from .. import common as C
 
 ENOMEM = 5
@@ -65,8 +65,9 @@ def parse_line(l):
 def corpus_programs(ctx):
     cdir = os.path.join(C.VERIF, "corpus", "C10")
     # families: p* one subsystem each; r* replace an already populated resource (assign FS/RS/OFS/... again, rebuild
-    # containers, reopen streams) and keep using it; e* the unconstrained run ends in a non-memory error
-    progs = sorted((f[:-5] for f in os.listdir(cdir) if f.endswith(".hawk") and f != "inc.hawk"),
+    # containers, reopen streams) and keep using it; e* the unconstrained run ends in a non-memory error;
+    # c* and m* are run through the command line tool only (cli_part; m* with a swept size parameter)
+    progs = sorted((f[:-5] for f in os.listdir(cdir) if f.endswith(".hawk") and f != "inc.hawk" and f[0] not in "cm"),
                    key=lambda n: ("pre".find(n[0]) if n[0] in "pre" else 9, n))
     return cdir, progs
 
@@ -81,7 +82,23 @@ def make_workdir(ctx, cdir, name, text=None):
         open(os.path.join(wd, "prog.hawk"), "w").write(text)
     for f in ("data.txt", "inc.hawk"):
         shutil.copy(os.path.join(cdir, f), os.path.join(wd, f))
+    if os.path.isdir(os.path.join(cdir, "incdir")):
+        shutil.copytree(os.path.join(cdir, "incdir"), os.path.join(wd, "incdir"))
     return wd
+
+
+def variant_of(name):
+    """which API route the life cycle takes for this program (harness OOMH_VARIANT bits: 1 = wide-string rtx open,
+    2 = source from memory + deparse into a string); fixed per program so that request indices are reproducible"""
+    digits = "".join(ch for ch in name[:4] if ch.isdigit())
+    return (int(digits) if digits else 0) % 4
+
+
+def venv(name, extra=None):
+    e = dict(C.ASAN_ENV, OOMH_VARIANT=str(variant_of(name)))
+    if extra:
+        e.update(extra)
+    return e
 
 
 def ref_clean(ref, prog_text):
@@ -99,8 +116,8 @@ def ref_err(ref):
     return (ref.get("phase"), ref.get("errnum")) if ref.get("outcome", "").startswith("ERR") else None
 
 
-def run_ref(exe, wd):
-    rc, out, err = C.run_harness(exe, ["ref", wd], None, timeout=120)
+def run_ref(exe, wd, env=None):
+    rc, out, err = C.run_harness(exe, ["ref", wd], None, timeout=120, env=env)
     if not out:
         return None, "no output from reference run (rc=%s): %s" % (rc, err[-300:])
     return parse_line(out[-1]), None
@@ -120,13 +137,15 @@ def sweep_job(args):
 def run_sweeps(exe, jobs, env=None):
     """jobs: list of (wd, mode, [k...]) -> list of (wd, mode, lines); every job is split over NPROC workers"""
     tasks = []
-    for ji, (wd, mode, ks) in enumerate(jobs):
-        # every harness process loads its symbol tables once (about a second): few, large tasks
+    for ji, job in enumerate(jobs):
+        wd, mode, ks = job[:3]
+        jenv = job[3] if len(job) > 3 and job[3] is not None else env
+        # few, large tasks (process start-up is not free)
         n = max(1, min(NPROC, (len(ks) + 399) // 400))
         for w in range(n):
             part = ks[w::n]
             if part:
-                tasks.append((ji, (exe, wd, mode, part, "%d" % w, env)))
+                tasks.append((ji, (exe, wd, mode, part, "%d" % w, jenv)))
     results = {ji: [] for ji in range(len(jobs))}
     with concurrent.futures.ThreadPoolExecutor(max_workers=NPROC) as ex:
         futs = {ex.submit(sweep_job, t[1]): t for t in tasks}
@@ -225,7 +244,7 @@ def judge(d):
 
 
 def replay_text(kind, name, mode, k, cdir, prog_text, extra=""):
-    t = "kind: %s\nprogram: %s\nmode: %s\nk: %s\n%s" % (kind, name, mode, k, extra)
+    t = "kind: %s\nprogram: %s\nvariant: %d\nmode: %s\nk: %s\n%s" % (kind, name, variant_of(name), mode, k, extra)
     t += "--- prog.hawk\n" + prog_text
     if not prog_text.endswith("\n"):
         t += "\n"
@@ -303,6 +322,8 @@ def rtx_correspondence(ctx, lines_by_mode, problems_corr):
     n_glob = sum(1 for d in inphase if "init_globals" in d.get("site", "").split("<"))
     arg = ",".join(x for x in (alias, "init_globals=%d" % n_glob) if x)
     for mode, lines in lines_by_mode.items():
+        if mode not in ("one", "from"):
+            continue
         byk = {d["k"]: d for d in lines}
         ks = [k for k in range(k0, k0 + 1 + n_init) if k in byk]
         ml = [kv(l) for l in drv(ctx, ["sim hawk_rtx_open %s %d %s" % (mode, k - k0, arg) for k in ks])]
@@ -350,15 +371,24 @@ def gen_ecs(rng, n):
                 lines.append("ncpy %d %s" % (rng.choice([0, 1, 2, 7, 30, 100]), orc))
             elif k < 0.75:
                 lines.append("setcapa %d %s" % (rng.choice([0, 1, 2, 5, 16, 64, 300]), orc))
-            elif k < 0.92:
+            elif k < 0.84:
                 lines.append("setlen %d %s" % (rng.choice([0, 1, 3, 9, 20, 70]), orc))
+            elif k < 0.88:
+                lines.append("nrcat %d %s" % (rng.choice([0, 1, 3, 9, 50]), orc))
+            elif k < 0.91:
+                lines.append("nccat %d %s" % (rng.choice([0, 1, 4, 33]), orc))
+            elif k < 0.94:
+                lines.append("del %d %d" % (rng.choice([0, 1, 2, 5, 40]), rng.choice([0, 1, 2, 7, 100])))
+            elif k < 0.98:
+                lines.append("amend %d %d %d %s" % (rng.choice([0, 1, 2, 5, 40]), rng.choice([0, 1, 2, 4, 100]), rng.choice([0, 1, 2, 3, 8, 60]), orc))
             else:
                 lines.append("clear")
     return lines
 
 
 def ecs_exhaustive():
-    alpha = ["ncat 3 -", "ncat 3 f", "ncat 5 ff", "ncat 0 -", "ncpy 2 -", "ncpy 9 f", "setcapa 2 -", "setcapa 0 f", "setlen 6 -", "setlen 6 f", "clear"]
+    alpha = ["ncat 3 -", "ncat 3 f", "ncat 5 ff", "ncat 0 -", "ncpy 2 -", "ncpy 9 f", "setcapa 2 -", "setcapa 0 f", "setlen 6 -", "setlen 6 f", "clear",
+             "nrcat 3 -", "nrcat 4 f", "nccat 5 sf", "nccat 6 fffffffff", "del 1 2", "amend 1 1 4 -", "amend 1 1 4 f", "amend 0 3 1 -", "amend 2 2 2 -"]
     out = []
     for cap in (0, 1, 4):
         for a in alpha:
@@ -382,16 +412,33 @@ def ecs_oracle(lines, cout):
         if cout[i] != "bad-op":
             if int(o["len"]) > int(o["capa"]) or len(o["s"]) != int(o["len"]) or (int(o["capa"]) > 0 and o["ptr"] != "1"):
                 return i, "length/capacity/buffer inconsistent: " + cout[i]
-        n = int(w[1]) if len(w) > 1 and w[0] in ("ncat", "ncpy") else 0
+        n = int(w[1]) if len(w) > 1 and w[0] in ("ncat", "ncpy", "nrcat") else int(w[3]) if w[0] == "amend" and len(w) > 3 else 0
         data = "".join(chr(97 + (ctr + j) % 26) for j in range(n))
         ctr += n
         if w[0] != "new" and prev is not None and cout[i] != "bad-op":
-            if o["ret"] == "ENOMEM" and (o["len"], o["capa"], o["s"], o["ptr"]) != (prev["len"], prev["capa"], prev["s"], prev["ptr"]):
+            if o["ret"] == "ENOMEM" and w[0] != "nccat" and (o["len"], o["capa"], o["s"], o["ptr"]) != (prev["len"], prev["capa"], prev["s"], prev["ptr"]):
                 return i, "failed operation changed the string: before %s after %s" % (prev, o)
             if o["ret"] != "ENOMEM" and w[0] == "ncat" and o["s"] != prev["s"] + data:
                 return i, "ncat result is not old contents + new characters"
             if o["ret"] != "ENOMEM" and w[0] == "ncpy" and o["s"] != data:
                 return i, "ncpy result is not the new characters"
+            if o["ret"] != "ENOMEM" and w[0] == "nrcat" and o["s"] != prev["s"] + data[::-1]:
+                return i, "nrcat result is not old contents + reversed new characters"
+            if w[0] == "nccat":
+                # character by character: a refusal may leave a proper prefix of the run appended, never anything else
+                add = o["s"][len(prev["s"]):]
+                full = int(w[1])
+                if not o["s"].startswith(prev["s"]) or add != "z" * len(add) or (o["ret"] != "ENOMEM" and len(add) != full) or (o["ret"] == "ENOMEM" and len(add) >= full):
+                    return i, "nccat left something else than the old contents plus (a prefix of) the run"
+            if o["ret"] != "ENOMEM" and w[0] == "amend":
+                pos = min(int(w[1]), len(prev["s"])); ln = min(int(w[2]), len(prev["s"]) - pos)
+                if o["s"] != prev["s"][:pos] + data + prev["s"][pos + ln:]:
+                    return i, "amend result is not old[0,pos) + replacement + old[pos+len,..)"
+            if w[0] == "del":
+                idx, sz = int(w[1]), int(w[2])
+                exp = prev["s"][:idx] + prev["s"][idx + sz:] if (idx < len(prev["s"]) and sz > 0) else prev["s"]
+                if o["s"] != exp:
+                    return i, "del result wrong"
         prev = o if cout[i] != "bad-op" else prev
     return None
 
@@ -426,22 +473,124 @@ def ecs_part(ctx, exe):
     return len(lines), nontriv
 
 
+# ----------------------------------------------------------------------------- direct API cases (harness/oom_api.h)
+def judge_api(d):
+    """the property on one `api=` line: a failing call says ENOMEM, leaves nothing behind and nothing damaged"""
+    rc = d.get("rc")
+    if rc == "CRASH":
+        return "memory error / signal while request %s was refused (%s)" % (d.get("k"), d.get("status", "?"))
+    if rc == "BROKEN":
+        return "a failed call damaged its object: %s" % d.get("msg", "?").replace("_", " ")
+    if d.get("badfree", 0) != 0:
+        return "a pointer that is not an outstanding block was freed"
+    if rc == "fail" and d.get("hit") == 0:
+        return "a call failed although no request was refused (error number %s)" % d.get("errnum")
+    if rc == "fail" and d.get("errnum") != ENOMEM:
+        return "the failing call left error number %s instead of HAWK_ENOMEM" % d.get("errnum")
+    # value caches of a runtime context legitimately keep blocks between calls: judged when the context is closed
+    if (d.get("scope") == "gem" or rc == "closed") and d.get("live", 0) != 0:
+        return "%s block(s) not returned" % d.get("live")
+    return None
+
+
+def api_lines(out):
+    res = []
+    for l in out:
+        if l.startswith("api="):
+            d = parse_line(l)
+            m = re.search(r" msg=(.*)$", l)
+            if m:
+                d["msg"] = m.group(1)
+            res.append(d)
+    return res
+
+
+def api_part(ctx, exe):
+    evals = 0
+    refused = 0
+
+    def one(mode):
+        return mode, C.run_harness(exe, ["api", "all", mode], None, timeout=300)
+    with concurrent.futures.ThreadPoolExecutor(max_workers=3) as ex:
+        results = list(ex.map(one, ["one", "from", "every"]))
+    seen = set()
+    for mode, (rc, out, err) in results:
+        lines = api_lines(out)
+        evals += len(lines)
+        refused += sum(1 for d in lines if d.get("rc") == "fail")
+        if rc != 0 and not lines:
+            ctx.problem("impl", "api enumeration (%s) did not run: rc=%s %s" % (mode, rc, err[-300:]), "kind: api\ncase: all\nmode: %s\nk: 0\n" % mode, found_input=False)
+        for d in lines:
+            v = judge_api(d)
+            if v and (d["api"], v[:40]) not in seen:
+                seen.add((d["api"], v[:40]))
+                k = d.get("k")
+                # confirm on a fresh process
+                kk = str(int(k) + 1) if isinstance(k, int) else "100000"
+                rc2, out2, err2 = C.run_harness(exe, ["api", d["api"], mode, kk], None, timeout=300)
+                again = [x for x in api_lines(out2) if x.get("k") == k]
+                if again and judge_api(again[-1]) is None:
+                    continue
+                ctx.problem("impl", "API case %s, %s mode, request %s refused: %s" % (d["api"], mode, k, v),
+                            "kind: api\ncase: %s\nmode: %s\nk: %s\nline: %s\n# replay: oom_h api %s %s %s  (harness/oom_api.h, function c_%s)\n%s"
+                            % (d["api"], mode, k, d["raw"], d["api"], mode, kk, d["api"], err2[-1500:]), found_input=True)
+    return evals, refused
+
+
 # ----------------------------------------------------------------------------- hawk -m N (zone allocator)
+TDIR_LOCK = threading.Lock()
+CLI_RICH = ["-v", "cliv=7", "-v", "cliname=nm", "-v", "OFS=:", "-F", "[ ]+", "-I", "incdir", "-d", "deparsed.out", "-t", "console.cli",
+            "-f", "prog.hawk", "-f", "inc.hawk", "data.txt", "data.txt"]
+
+
+def cli_cmd(hawk, config, limit):
+    """config `plain`: hawk -f prog data;  `rich`: the tool's own option handling (-v, -F, -I, -d, -t, two -f, two inputs).
+    limit: ("m", N) zone allocator of N bytes | ("X", p) the tool's built-in failing allocator (every p-th request) | None"""
+    lim = [] if limit is None else ["-" + limit[0], str(limit[1])]
+    tail = CLI_RICH if config == "rich" else ["-v", config, "-f", "prog.hawk"] if config.startswith("L=") else ["-f", "prog.hawk", "data.txt"]
+    return ["timeout", "-s", "KILL", "30", hawk, "--tolerant=off"] + lim + tail
+
+
 def cli_part(ctx, libdir, cdir, progs):
     hawk = os.path.join(libdir, "hawk")
     evals = 0
     bad = []
-    sel = progs[:3] if ctx.tier == "quick" else progs[:6]
-    for name in sel:
+    # programs: arithmetic, heavy string growth (realloc in the zone), regex replacement; + the CLI-only program with options
+    want = ["p01_arith_str", "p03_array", "p05_printf", "p10_concat", "r01_fs_rs_replace"] if ctx.tier == "quick" else ["p01_arith_str", "p02_maps", "p04_regex", "p10_concat", "p12_gc", "r01_fs_rs_replace", "r03_value_replace"]
+    sel = [(n, "plain") for n in want if n in progs]
+    if os.path.exists(os.path.join(cdir, "c01_cli.hawk")):
+        sel.append(("c01_cli", "rich"))
+    for name, config in sel:
         wd = make_workdir(ctx, cdir, "cli_" + name, open(os.path.join(cdir, name + ".hawk")).read())
         env = dict(C.ASAN_ENV)
 
-        def run(N):
-            cmd = ["timeout", "-s", "KILL", "30", hawk, "--tolerant=off"] + (["-m", str(N)] if N else []) + ["-f", "prog.hawk", "data.txt"]
-            return C.sh(cmd, timeout=40, cwd=wd, env=env)
-        rc0, out0, err0 = run(0)
+        tdirs = {}
+
+        def run(limit, wd0=wd, config=config, tdirs=tdirs):
+            # programs write files with fixed names: every worker thread runs in its own copy of the directory
+            tid = threading.get_ident()
+            with TDIR_LOCK:
+                if tid not in tdirs:
+                    d = "%s.t%d" % (wd0, len(tdirs))
+                    shutil.rmtree(d, ignore_errors=True)
+                    shutil.copytree(wd0, d)
+                    tdirs[tid] = d
+            wd = tdirs[tid]
+            for f in ("console.cli", "deparsed.out"):
+                try:
+                    os.unlink(os.path.join(wd, f))
+                except OSError:
+                    pass
+            rc, out, err = C.sh(cli_cmd(hawk, config, limit), timeout=40, cwd=wd, env=env)
+            if config == "rich":
+                try:
+                    out = out + b"|" + open(os.path.join(wd, "console.cli"), "rb").read()
+                except OSError:
+                    out = out + b"|<none>"
+            return rc, out, err
+        rc0, out0, err0 = run(None)
         if rc0 != 0:
-            bad.append((name, 0, "unconstrained CLI run failed rc=%s %s" % (rc0, err0[-200:])))
+            bad.append((name, config, ("m", 0), "unconstrained CLI run failed rc=%s %s" % (rc0, err0[-200:])))
             continue
         sizes = set()
         n = 1024
@@ -451,7 +600,7 @@ def cli_part(ctx, libdir, cdir, progs):
         lo, hi = 1024, 4 * 1024 * 1024
         while hi - lo > 64:
             mid = (lo + hi) // 2
-            r = run(mid); evals += 1
+            r = run(("m", mid)); evals += 1
             if r[0] == 0 and r[1] == out0:
                 hi = mid
             else:
@@ -459,32 +608,63 @@ def cli_part(ctx, libdir, cdir, progs):
         win = 40 if ctx.tier == "quick" else 400
         for x in range(max(1, hi - win), hi + win):
             sizes.add(x)
-        sizes = sorted(sizes)
+        limits = [("m", x) for x in sorted(sizes)]
+        # the tool's own failing allocator (HAWK_BUILD_DEBUG): every p-th request refused
+        # (with period p the first refusal is request p-1: the option-handling program gets every p up to its request count)
+        limits += [("X", p_) for p_ in (range(1, 120) if (ctx.tier == "quick" and config != "rich") else range(1, 700))]
 
-        def one(N):
-            rc, out, err = run(N)
+        def one(limit, out0=out0):
+            rc, out, err = run(limit)
             e = err.decode(errors="replace")
             st = C.classify_rc(rc, e)
             if rc in (-9, 137):
-                return (N, "hang")
+                return (limit, "hang")
             if st in ("ASAN", "UBSAN") or rc < 0 or rc in (134, 139, 66, 67):
-                return (N, "crash %s: %s" % (st, e[-300:].replace("\n", " ")))
+                return (limit, "crash %s: %s" % (st, e[-300:].replace("\n", " ")))
             if rc == 0:
-                return None if out == out0 else (N, "exit 0 with output different from the unconstrained run")
+                return None if out == out0 else (limit, "exit 0 with output different from the unconstrained run")
             if b"SOFTERR" in out:
                 return None   # the script saw getline return -1 and exited by itself
             if "ERROR" not in e and "error" not in e.lower():
-                return (N, "exit %d without an error message" % rc)
+                return (limit, "exit %d without an error message" % rc)
             return None
         with concurrent.futures.ThreadPoolExecutor(max_workers=NPROC) as ex:
-            for r in ex.map(one, sizes):
+            for r in ex.map(one, limits):
                 evals += 1
                 if r:
-                    bad.append((name, r[0], r[1]))
+                    bad.append((name, config, r[0], r[1]))
         shutil.rmtree(wd, ignore_errors=True)
-    for name, N, what in bad[:3]:
-        ctx.problem("impl", "hawk -m %d on %s: %s" % (N, name, what),
-                    "kind: cli\nprogram: %s\nN: %d\n# run: hawk --tolerant=off -m %d -f corpus/C10/%s.hawk corpus/C10/data.txt\n" % (name, N, N, name), found_input=True)
+        for d in tdirs.values():
+            shutil.rmtree(d, ignore_errors=True)
+    # family m*: a generous zone, the program's buffer sizes swept at the allocator's granule (in-place regrowth over
+    # just-released neighbours must hit every size relation: exact fit, one granule more, one less)
+    for mname in sorted(f[:-5] for f in os.listdir(cdir) if f.endswith(".hawk") and f[0] == "m"):
+        wd = make_workdir(ctx, cdir, "cli_" + mname, open(os.path.join(cdir, mname + ".hawk")).read())
+        Ls = list(range(256, 4097, 8)) if ctx.tier == "quick" else list(range(64, 8193, 8))
+
+        def mrun(L, wd=wd):
+            base = ["timeout", "-s", "KILL", "30", hawk, "--tolerant=off"]
+            tail = ["-v", "L=%d" % L, "-f", "prog.hawk"]
+            r0 = C.sh(base + tail, timeout=40, cwd=wd, env=C.ASAN_ENV)
+            res = []
+            for N in ((2000000,) if ctx.tier == "quick" else (2000000, 3000001)):
+                r1 = C.sh(base + ["-m", str(N)] + tail, timeout=40, cwd=wd, env=C.ASAN_ENV)
+                if r0[0] != 0:
+                    res.append((N, "unconstrained run failed rc=%s" % r0[0]))
+                elif r1[0] != r0[0] or r1[1] != r0[1]:
+                    e = r1[2].decode(errors="replace")
+                    res.append((N, "a run that fits into the zone differs from the unconstrained run (rc=%s): %s" % (r1[0], e[:200].replace("\n", " "))))
+            return L, res
+        with concurrent.futures.ThreadPoolExecutor(max_workers=NPROC) as ex:
+            for L, res in ex.map(mrun, Ls):
+                evals += 2
+                for N, what in res:
+                    bad.append((mname, "L=%d" % L, ("m", N), what))
+        shutil.rmtree(wd, ignore_errors=True)
+    for name, config, limit, what in bad[:3]:
+        ctx.problem("impl", "hawk -%s %d on %s (%s command line): %s" % (limit[0], limit[1], name, config, what),
+                    "kind: cli\nprogram: %s\nconfig: %s\nN: %s%d\n# run in a directory holding prog.hawk (= corpus/C10/%s.hawk), data.txt, inc.hawk, incdir/: %s\n"
+                    % (name, config, limit[0], limit[1], name, " ".join(cli_cmd("hawk", config, limit)[4:])), found_input=True)
     return evals
 
 
@@ -495,9 +675,9 @@ def choose_ks(ctx, total, mode, first_prog, open_total, dense=()):
     ks = list(range(lo, total + 1))
     if ctx.tier == "thorough":
         return ks
-    stride = 2 if mode == "one" else 8
+    stride = 3 if mode == "one" else 8
     off = ctx.rng.randrange(stride)
-    return [k for k in ks if k < 200 or (k - off) % stride == 0 or k >= total - 8 or (dense and dense[0] <= k < dense[1])]
+    return [k for k in ks if (k < 200 and (first_prog or dense)) or (k - off) % stride == 0 or k >= total - 8 or (dense and dense[0] <= k < dense[1])]
 
 
 def run(ctx):
@@ -521,7 +701,7 @@ def run(ctx):
     wds = {}
     for name in progs:
         wds[name] = make_workdir(ctx, cdir, name)
-        ref, msg = run_ref(exe, wds[name])
+        ref, msg = run_ref(exe, wds[name], venv(name))
         if not ref_clean(ref, open(os.path.join(cdir, name + ".hawk")).read()):
             ctx.problem("impl", "unconstrained run of %s is not clean (memory error, leak, foreign free or unexpected failure): %s" % (name, msg or ref["raw"]),
                         replay_text("lifecycle", name, "none", -1, cdir, open(os.path.join(cdir, name + ".hawk")).read()), found_input=True)
@@ -539,7 +719,10 @@ def run(ctx):
                 # multi-step programs: a defect shows only for the few request indices inside the second (replacing)
                 # step, so every index of the execution phase is injected in both modes, also in the quick tier
                 dense = (refs[name]["reqs"][2], total + 1)
-            jobs.append((wds[name], mode, choose_ks(ctx, total, mode, i == 0, open_total, dense)))
+            jobs.append((wds[name], mode, choose_ks(ctx, total, mode, i == 0, open_total, dense), venv(name)))
+        # third fault pattern: every p-th request is refused (k = period) - refusals interleaved with grants
+        periods = [2, 3, 5, 7, 11, 16, 23, 32, 47, 64] if ctx.tier == "quick" else list(range(2, 65)) + [80, 100, 128, 160, 200, 256]
+        jobs.append((wds[name], "every", periods, venv(name)))
     t0 = time.time()
     res = run_sweeps(exe, jobs)
     ctx.log("fault enumeration: %d cases over %d programs in %.1fs" % (sum(len(r[2]) for r in res), len(order), time.time() - t0))
@@ -568,8 +751,8 @@ def run(ctx):
     # thorough: the same enumeration with HAWK_TOLERANT left on (the library default): a failing print/printf then
     # yields -1 by design, so only memory errors, foreign frees and leaks are judged
     if ctx.tier == "thorough":
-        jobs_t = [(wds[name], "one", choose_ks(ctx, refs[name]["nreq"], "one", False, open_total)) for name in order]
-        res_t = run_sweeps(exe, jobs_t, env=dict(C.ASAN_ENV, OOMH_TOLERANT="1"))
+        jobs_t = [(wds[name], "one", choose_ks(ctx, refs[name]["nreq"], "one", False, open_total), venv(name, dict(OOMH_TOLERANT="1"))) for name in order]
+        res_t = run_sweeps(exe, jobs_t)
         symbolize(exe, [d for r in res_t for d in r[2]])
         for (wd, mode, lines) in res_t:
             name = os.path.basename(wd)[3:]
@@ -601,6 +784,10 @@ def run(ctx):
     # ecs, CLI
     ne, ntriv_ecs = ecs_part(ctx, exe)
     evaluations += ne
+    na, api_refused = api_part(ctx, exe)
+    evaluations += na
+    ctx.coverage["api_cases"] = na
+    ctx.coverage["api_refusals"] = api_refused
     evaluations += cli_part(ctx, libdir, cdir, order)
     if os.environ.get("C10_DUMP"):
         with open(os.environ["C10_DUMP"], "w") as f:
@@ -611,7 +798,7 @@ def run(ctx):
         prog_text = open(os.path.join(cdir, name + ".hawk")).read()
         # confirm on a fresh run
         tol = g[0].startswith("tolerant:")
-        again, _, _ = sweep_job((exe, wds[name], mode, [d["k"]], "confirm", dict(C.ASAN_ENV, OOMH_TOLERANT="1") if tol else None))
+        again, _, _ = sweep_job((exe, wds[name], mode, [d["k"]], "confirm", venv(name, dict(OOMH_TOLERANT="1") if tol else None)))
         symbolize(exe, again)
         for a in again:
             a["_referr"] = ref_err(refs[name])
@@ -634,7 +821,7 @@ def run(ctx):
         shutil.rmtree(wds[p], ignore_errors=True)
     return C.finish(ctx, [proof], evaluations, len(sites),
                     "cases = (program, request index k, mode) for %d corpus programs x {fail exactly the k-th request, fail every request from the k-th on} over open/parse/rtx_open/exec/close "
-                    "(quick: k<200 + every 2nd (`one`) / every 8th (`from`) at a seeded offset + the last 8, and every k of the rtx_open+exec phases of the r*/e* program families; thorough: every k), + constructor probes (hawk_init, hawk_open, hawk_openstdwithmmgr, every k, both modes) "
+                    "(quick: k<200 for the first four programs and the r*/e* families + every 3rd (`one`) / every 8th (`from`) at a seeded offset + the last 8, and every k of the rtx_open+exec phases of the r*/e* program families; thorough: every k), + constructor probes (hawk_init, hawk_open, hawk_openstdwithmmgr, every k, both modes) "
                     "+ ecs op streams (exhaustive pairs + random, scripted allocator) + `hawk -m N` sweep (geometric 1 KiB..2 MiB + every size around the smallest working one); "
                     "each case judged on the real code: ENOMEM or identical output, no sanitizer report/signal/hang, zero live blocks, no foreign free; "
                     "distinct_nontrivial = distinct allocation call chains (innermost 5 hawk frames) at which a refusal was actually injected" % len(order),
@@ -653,7 +840,7 @@ def replay(ctx, path):
     txt = open(path).read()
     hdr = {}
     for l in txt.split("\n"):
-        m = re.match(r"(kind|program|mode|k|N|ctor|tolerant): (.*)$", l)
+        m = re.match(r"(kind|program|mode|k|N|ctor|tolerant|variant|case|config): (.*)$", l)
         if m and m.group(1) not in hdr:
             hdr[m.group(1)] = m.group(2).strip()
     libdir = C.build_libhawk(ctx)
@@ -664,11 +851,14 @@ def replay(ctx, path):
         m = re.search(r"--- prog\.hawk\n(.*?)--- end\n", txt, re.S)
         text = m.group(1) if m else open(os.path.join(cdir, hdr["program"] + ".hawk")).read()
         wd = make_workdir(ctx, cdir, "replay", text)
-        ref, msg = run_ref(exe, wd)
+        renv = dict(C.ASAN_ENV, OOMH_VARIANT=hdr.get("variant", "0"))
+        if hdr.get("tolerant") == "1":
+            renv["OOMH_TOLERANT"] = "1"
+        ref, msg = run_ref(exe, wd, renv)
         print("reference:", ref["raw"] if ref else msg)
         if hdr.get("mode") == "none":
             return 0 if ref_clean(ref, text) else 1
-        lines, rc, err = sweep_job((exe, wd, hdr["mode"], [int(hdr["k"])], "r", dict(C.ASAN_ENV, OOMH_TOLERANT="1") if hdr.get("tolerant") == "1" else None))
+        lines, rc, err = sweep_job((exe, wd, hdr["mode"], [int(hdr["k"])], "r", renv))
         symbolize(exe, lines)
         for d in lines:
             print(d["raw"])
@@ -682,10 +872,10 @@ def replay(ctx, path):
         print("no output", rc, err[-300:])
         return 1
     if kind == "ecs":
-        lines = [l for l in txt.split("\n") if l and not l.startswith(("#", "kind:")) and l.split()[0] in ("new", "ncat", "ncpy", "setcapa", "setlen", "clear")]
+        lines = [l for l in txt.split("\n") if l and not l.startswith(("#", "kind:")) and l.split()[0] in ("new", "ncat", "ncpy", "setcapa", "setlen", "clear", "nrcat", "nccat", "del", "amend")]
         cut = txt.find("# impl:")
         if cut >= 0:
-            lines = [l for l in txt[:cut].split("\n") if l and l.split()[0] in ("new", "ncat", "ncpy", "setcapa", "setlen", "clear")]
+            lines = [l for l in txt[:cut].split("\n") if l and l.split()[0] in ("new", "ncat", "ncpy", "setcapa", "setlen", "clear", "nrcat", "nccat", "del", "amend")]
         rc, cout, cerr = C.run_harness(exe, ["ecs"], lines, timeout=60)
         mout = drv(ctx, lines)
         for l, a, b in zip(lines, cout, mout):
@@ -701,8 +891,40 @@ def replay(ctx, path):
     if kind == "cli":
         hawk = os.path.join(libdir, "hawk")
         wd = make_workdir(ctx, cdir, "replaycli", open(os.path.join(cdir, hdr["program"] + ".hawk")).read())
-        rc, out, err = C.sh(["timeout", "-s", "KILL", "30", hawk, "--tolerant=off", "-m", hdr["N"], "-f", "prog.hawk", "data.txt"], timeout=40, cwd=wd, env=C.ASAN_ENV)
+        n = hdr["N"]
+        limit = (n[0], int(n[1:])) if n[0] in "mX" else ("m", int(n))
+        cfg = hdr.get("config", "plain")
+        rc, out, err = C.sh(cli_cmd(hawk, cfg, limit), timeout=40, cwd=wd, env=C.ASAN_ENV)
         print("rc=%s" % rc, err.decode(errors="replace")[-600:])
+        def extra():
+            try:
+                return open(os.path.join(wd, "console.cli"), "rb").read()
+            except OSError:
+                return b""
+        out += extra()
+        if cfg.startswith("L=") or rc == 0:
+            try:
+                os.unlink(os.path.join(wd, "console.cli"))
+            except OSError:
+                pass
+            rc0, out0, err0 = C.sh(cli_cmd(hawk, cfg, None), timeout=40, cwd=wd, env=C.ASAN_ENV)
+            out0 += extra()
+            print("unconstrained rc=%s, same output: %s" % (rc0, out0 == out))
+            return 1 if (rc != rc0 or out != out0) else 0
         return 1 if (rc < 0 or rc in (66, 67, 134, 137, 139)) else 0
+    if kind == "api":
+        k = hdr.get("k", "0")
+        kk = str(int(k) + 1) if k.isdigit() else "100000"
+        rc, out, err = C.run_harness(exe, ["api", hdr["case"], hdr["mode"], kk], None, timeout=300)
+        lines = api_lines(out)
+        hit = [d for d in lines if str(d.get("k")) == k] or lines[-1:]
+        for d in hit:
+            print(d["raw"])
+            v = judge_api(d)
+            print("verdict:", v or "property holds for this case")
+            if v:
+                print(err[-1500:])
+                return 1
+        return 0
     print("unknown replay kind")
     return 2
